@@ -204,18 +204,41 @@ def ref_matches_spec(spec, ref):
 
 # ------------------------------------------------------------------ one shard
 
+SEND_LIMIT_S = 8      # CPU seconds; a single send request (all its fragments) takes well under a second
+MAX_TIMEOUTS = 2      # per worker / per stream: after that the remaining cases are skipped (the defect is established)
+
+
+def guarded_send(rigbox, spec, m, now_ms):
+    ''' rig.send under a CPU-time watchdog: a fragment loop that does not advance (budget 0) must not hang the
+    check. Returns None on timeout (and a fresh rig). '''
+    try:
+        with fl.watchdog(SEND_LIMIT_S):
+            return rigbox[0].send(spec, m, now_ms=now_ms)
+    except fl.SendTimeout:
+        rigbox[0] = fl.Rig()        # drop the flooded agent
+        return None
+
+
 def run_cases(cases):
     ''' cases: list of (spec, [mtus]); returns summary dict '''
-    rig = fl.Rig()
+    rigbox = [fl.Rig()]
     lean = core.LeanSide()
     res = {'n': 0, 'dist': {}, 'breaks': [], 'viol': [], 'samples': [], 'nontrivial': []}
 
     def cnt(k, n=1):
         res['dist'][k] = res['dist'].get(k, 0) + n
     clock = [5000]
+    ntimeouts = 0
     for spec, mtus in cases:
+        if ntimeouts >= MAX_TIMEOUTS:
+            cnt('skipped-after-timeouts')
+            continue
         clock[0] += 17
-        ref_out, ref_esc, _ = rig.send(spec, None, now_ms=clock[0])
+        r0 = guarded_send(rigbox, spec, None, clock[0])
+        if r0 is None:
+            res['viol'].append(('C05:send-does-not-terminate', 'send_bundle without MTU did not return within %d s' % SEND_LIMIT_S, {'spec': spec, 'mtu': None}))
+            continue
+        ref_out, ref_esc, _ = r0
         if len(ref_out) != 1 or ref_esc:
             ref = None
         else:
@@ -228,7 +251,15 @@ def run_cases(cases):
         reqs = []
         for m in [None] + list(mtus):
             clock[0] += 17
-            reals.append(rig.send(spec, m, now_ms=clock[0]))
+            rr = guarded_send(rigbox, spec, m, clock[0])
+            if rr is None:
+                ntimeouts += 1
+                cnt('monitor:C05:send-does-not-terminate')
+                res['viol'].append(('C05:send-does-not-terminate',
+                                    'send_bundle / Fragment._create did not return within %d s (a fragment loop that does not advance)'
+                                    % SEND_LIMIT_S, {'spec': spec, 'mtu': m}))
+                rr = ([], 'Timeout', [])
+            reals.append(rr)
             reqs.append({'op': 'frag.send', 'bundle': sj, 'mtu': m, 'now': clock[0], 'as_source': spec.get('as_source', True)})
         outs = lean.driver(reqs)
         for m, real, mo in zip([None] + list(mtus), reals, outs):
@@ -256,6 +287,10 @@ def run_cases(cases):
                     'altered' if nfr == 1 else 'frags')
             cnt('outcome:' + kind)
             cnt('crc:%d%d%d' % tuple(b for b in (spec['crc'], ([b['crc'] for b in spec['blocks'] if b['num'] == 1] + [0])[0], spec['blocks'][0]['crc'] if spec['blocks'] else 0)))
+            if ref is not None and m is not None and not (spec['flags'] & 5) and not spec.get('malformed'):
+                pre_real = len(ref) - L + 3 * fl.head_len(L)
+                if len(ref) > m and m in (pre_real - 1, pre_real):
+                    cnt('feasibility-boundary:mtu=precheck%s:%s' % ('' if m == pre_real else '-1', kind))
             if kind == 'frags':
                 for o in routs:
                     try:
@@ -453,10 +488,15 @@ def run(chk):
         for sig, what, rep in r['viol']:
             chk.violation(sig, what, rep)
     chk.cov['traces_validated_against_impl'] = sum(r['n'] for r in results)
-    run_security(chk)
-    run_forward_path(chk)
-    run_originated_path(chk)
-    run_cl_failure(chk)
+    for stream in (run_security, run_forward_path, run_originated_path, run_cl_failure):
+        try:
+            with fl.watchdog(30 if chk.tier == 'quick' else 600):
+                stream(chk)
+        except fl.SendTimeout:
+            chk.count('monitor:C05:send-does-not-terminate')
+            chk.violation('C05:send-does-not-terminate',
+                          'stream %s: the code under test did not return within its CPU budget (a loop that does not advance)'
+                          % stream.__name__, {'stream': stream.__name__})
     return
 
 
